@@ -164,7 +164,7 @@ class Node:
         minimize = get_score_fn(minimize)
 
         if minimize.chi == "auto":
-            chi = max(size_dict.values()) ** 2
+            chi = max(size_dict.values(), default=1) ** 2
         else:
             chi = minimize.chi
 
